@@ -35,49 +35,63 @@ def k_mont(l1):
     fname = prog.find("Point).BytesMontgomery")
     chk.used(prog, fname, "ring mode")
     chk.used(prog, prog.find("Point).bytesMontgomery"), "ring mode")
-    label = "Point.BytesMontgomery"
     path = l1.path()
     P1 = l1.p3("1")
     p = l1.obj(path, "Point", P1.coords())
-    r = l1.call1(fname, [p], path)
-    sl = r.outcome[1][0]
-    hy = r.dstate.get("hyp", [])
-    invs = [h for h in hy if h[0] == "inv"]
-    encs = [h for h in hy if h[0] == "bytes"]
-    ok = len(invs) == 2 and len(encs) == 1 and invs[0][1] == P1.Z
-    chk.add(Ob("%s: two inversions (Z, then 1-y), one field encoding" % label, "unsat" if ok else "sat", 0, [fname], "structure", detail=str([repr(h[1])[:60] for h in invs])))
-    if not ok:
-        return
-    i1, i2 = Poly.var(invs[0][2]), Poly.var(invs[1][2])
-    y = P1.Y * i1
-    g1 = P1.Z * i1 - 1
-    den = invs[1][1]
+    ob0, rets = L1m.returning_paths(l1, fname, [p], path, "Point.BytesMontgomery")
     stages, mult = l1.stages_p3([P1])
-    l1.goal(label, "second inversion is of 1 - y with y = Y/Z", den - (Poly.const(1) - y), [], [], fname)
-    l1.goal(label, "y*Z = Y", y * P1.Z - P1.Y, [([g1], [invs[0][2]])] + stages, mult, fname)
-    u = encs[0][1]
-    # case y != 1: (1-y)*i2 = 1  =>  u*(1-y) = 1+y
-    g2 = den * i2 - 1
-    l1.goal(label, "y != 1: u*(1-y) = 1+y  (u = (1+y)/(1-y))", u * (Poly.const(1) - y) - (Poly.const(1) + y), [([g2], [invs[1][2], invs[0][2]])], [], fname)
-    # case y = 1 (the identity): inv(0) = 0 => u = 0
-    l1.goal(label, "y = 1 (identity, 0^-1 = 0): u = 0", u.subs({invs[1][2]: Poly()}), [], [], fname)
-    l1.goal(label, "u does not depend on X or T (so P and -P encode alike)", Poly.const(1) if (u.vars() & {Poly.var("X1").vars().pop(), Poly.var("T1").vars().pop()}) else Poly(), [], [], fname)
-    out = r.heap[sl.obj][0]
-    enc = encs[0][2]
-    s = z3.Solver()
-    for c in r.pc:
-        s.add(c)
-    s.add(z3.Not(z3.And([out[i] == enc[i] for i in range(32)])))
-    chk.add(Ob("%s: output = canonical 32-byte little-endian encoding of u" % label, str(s.check()), 0, [fname], "BV"))
-    chk.fact("%s: fresh 32-byte buffer; point not written" % label, isinstance(sl, X.SliceV) and sl.len == 32 and l1.ex.meta[sl.obj].kind in ("heap", "stack") and not any(w[0] == "w" and w[1] == p.obj for w in r.log), [fname])
-    # y = 1 only for the identity among valid points: y=1 => x^2 (1+d) = 0 and d != -1
+    for tag, r in rets:
+        label = "Point.BytesMontgomery" + tag
+        sl = r.outcome[1][0]
+        hy = r.dstate.get("hyp", [])
+        invs = [h for h in hy if h[0] == "inv"]
+        encs = [h for h in hy if h[0] == "bytes"]
+        if len(encs) != 1 or not isinstance(sl, X.SliceV):
+            chk.soft("%s: encodes exactly one field element" % label, False, [fname])
+            continue
+        u = encs[0][1]
+        # y = Y/Z is not a program variable we can rely on: state the specification with an own inverse symbol of Z
+        zi = Poly.var("specZinv")
+        y = P1.Y * zi
+        gz = P1.Z * zi - 1
+        one = Poly.const(1)
+        # hypotheses in elimination order: the code's own inverse symbols (latest first), then "the code's 1/Z is the
+        # specification's 1/Z", then Z*specZinv = 1, then the point's equations
+        # the code's inverse of Z *is* the specification's (both are 1/Z): rename it, then use the remaining inverse
+        # hypotheses (with the renaming applied), then Z*specZinv = 1, then the point's equations
+        ren = {h[2]: zi for h in invs if h[1] == P1.Z}
+        u = u.subs(ren) if ren else u
+        st = []
+        for h in hy:
+            if h[0] == "inv" and h[1] != P1.Z:
+                st = [([h[1].subs(ren) * Poly.var(h[2]) - 1], [h[2]])] + st
+        st = st + [([gz], ["specZinv"])] + stages
+        invs = [(h[0], h[1].subs(ren) if ren else h[1], h[2]) for h in invs]
+        # case y != 1: every inversion the code performed is of a non-zero value on generic points; u*(1-y) = 1+y
+        l1.goal(label, "y != 1: u*(1-y) = 1+y with y = Y/Z", u * (one - y) - (one + y), st, mult, fname)
+        # case y = 1: substitute the convention inv(0) = 0 for inversions of expressions that vanish at y = 1
+        u1 = u
+        for h in invs:
+            if h[1] != P1.Z:
+                u1 = u1.subs({h[2]: Poly()})
+        st1 = [([P1.Y - P1.Z], ["Y1"])] + st       # hypothesis y = 1, i.e. Y = Z
+        l1.goal(label, "y = 1 (the identity; 0^-1 = 0): u = 0", u1, st1, mult, fname)
+        l1.goal(label, "u does not depend on X or T (so P and -P encode alike)", Poly.const(1) if (u.vars() & {Poly.var("X1").vars().pop(), Poly.var("T1").vars().pop()}) else Poly(), [], [], fname)
+        out = r.heap[sl.obj][0]
+        enc = encs[0][2]
+        s = z3.Solver()
+        for c in r.pc:
+            s.add(c)
+        s.add(z3.Not(z3.And([out[i] == enc[i] for i in range(32)])))
+        chk.add(Ob("%s: output = canonical 32-byte little-endian encoding of u" % label, str(s.check()), 0, [fname], "BV"))
+        chk.fact("%s: fresh 32-byte buffer; point not written" % label, sl.len == 32 and l1.ex.meta[sl.obj].kind in ("heap", "stack") and not any(w[0] == "w" and w[1] == p.obj for w in r.log), [fname])
     dv = l1.base.global_val(K.E + "d")
     dval = sum(int(l) << (51 * k) for k, l in enumerate(dv)) % ref.P
-    chk.fact("%s: d != -1 mod p (so y = 1 forces x = 0: only the identity has y = 1)" % label, (dval + 1) % ref.P != 0, [K.E + "init"], "concrete")
+    chk.fact("Point.BytesMontgomery: d != -1 mod p (so y = 1 forces x = 0: only the identity has y = 1)", (dval + 1) % ref.P != 0, [K.E + "init"], "concrete")
     xx, yy, dd = Poly.var("x"), Poly.var("y"), l1.d
     from sym.poly import z3_identity_unsat
     rr, _ = z3_identity_unsat([[(-(xx ** 2) + yy ** 2 - 1 - dd * xx ** 2 * yy ** 2).subs({"y": Poly.const(1)})]], [[Poly.const(-1), xx ** 2, Poly.const(1) + dd]])
-    chk.add(Ob("%s: curve equation at y = 1 reduces to -x^2*(1+d) = 0" % label, rr, 0, [fname], "polynomial identity (z3)"))
+    chk.add(Ob("Point.BytesMontgomery: curve equation at y = 1 reduces to -x^2*(1+d) = 0", rr, 0, [fname], "polynomial identity (z3)"))
 
 
 def run(chk):
